@@ -260,6 +260,10 @@ def r17_1(ctx, rr):
                         binds = [bid for _, bid in pat_bindings(par["pat"])]
                         enclosing_if = ps[-2] if len(ps) >= 2 else None
                         if enclosing_if is not None and enclosing_if.get("k") == "If":
+                            # `let key = result?;` (the binding itself is tried)
+                            for m in walk(enclosing_if["th"]):
+                                if m.get("k") == "Match" and m.get("src") == "TryDesugar" and any(x.get("k") == "Path" and x.get("res") == "local" and x.get("id") in binds for x in walk(m["e"])):
+                                    ok = True
                             for m in walk(enclosing_if["th"]):
                                 if m.get("k") == "Match" and m["e"].get("k") == "Path" and m["e"].get("id") in binds:
                                     for arm in m["arms"]:
@@ -275,40 +279,68 @@ def r17_1(ctx, rr):
                 rr.violate(key, "%s: the Result of `%s` is not propagated to the caller (%s)" % (b.key, show(F, n)[:120], detail or "no `?` / `return Err`"), F.loc(n))
 
 
+SOLVE_VARIANTS = ("DuplicateSignature", "DuplicateLocalSignature", "MaxShardTooBig", "UnsolvableShard")
+
+
+def solve_error_match(F, bl):
+    """The match over the SolveError variants in build_loop (wherever it sits), as {variant: arm}; and whether an
+    error that is not a SolveError is handed back to the caller (an `Err(e) => return Err(e)` arm of the match on
+    `error.downcast::<SolveError>()`, or that downcast result propagated with `?`)."""
+    variants = None
+    for n in walk(bl.body):
+        if n.get("k") == "Match" and n.get("src") == "Normal":
+            names = [a["pat"].get("name", "") for a in n["arms"]]
+            if sum(1 for x in names if x in SOLVE_VARIANTS) >= 2:
+                variants = ({a["pat"].get("name", "?"): a for a in n["arms"]}, n)
+    fatal = False
+    for n in walk(bl.body):
+        if n.get("k") == "Match" and any(x.get("k") == "MethodCall" and x["name"] == "downcast" for x in walk(n["e"])):
+            if n.get("src") == "TryDesugar":
+                fatal = True
+            else:
+                for a in n["arms"]:
+                    if a["pat"].get("name") == "Err" and diverges(F, a["body"]) and any(x.get("k") == "Ret" and "e" in x and show(F, x["e"]).startswith("v1::Err(") for x in walk(a["body"])):
+                        fatal = True
+    return variants, fatal
+
+
+def bounded_retry(F, arm_body):
+    """counter ids with a bound: `if cnt >= k { .. return Err }` or `if cnt < k { .. } else { .. return Err }`, and the
+    same counter incremented by one in the arm. Returns {counter id: bound}."""
+    cnts = {}
+    def returns_err(br):
+        return br is not None and diverges(F, br) and any(y.get("k") == "Ret" and "Err(" in show(F, y.get("e", {"k": "?"})) for y in walk(br))
+    for x in walk(arm_body):
+        if x.get("k") == "If" and x["c"].get("k") == "Binary" and x["c"]["op"] in (">=", ">", "<", "<=") and x["c"]["l"].get("k") == "Path" and x["c"]["r"].get("k") == "Lit":
+            op = x["c"]["op"]
+            k_ = int(x["c"]["r"]["v"])
+            if op in (">=", ">") and returns_err(x["th"]):
+                cnts.setdefault(x["c"]["l"]["id"], {})["test"] = k_ + (1 if op == ">" else 0)
+            if op in ("<", "<=") and returns_err(x.get("el")):
+                cnts.setdefault(x["c"]["l"]["id"], {})["test"] = k_ + (1 if op == "<=" else 0)
+        if x.get("k") == "AssignOp" and x["op"] == "+=" and x["l"].get("k") == "Path" and x["r"].get("v") == "1":
+            cnts.setdefault(x["l"]["id"], {})["inc"] = True
+    return cnts
+
+
+
 @rule("R17.2", props=["C17"], floor=5, title="build_loop: fatal errors returned unchanged, duplicate retries bounded by counters")
 def r17_2(ctx, rr):
     F = ctx.F()
     b = F.one(r"^func::vbuilder::VBuilder::<W, D, S, E>::build_loop$")
-    dm = [n for n in walk(b.body) if n.get("k") == "Match" and n["e"].get("k") == "MethodCall" and n["e"]["name"] == "downcast"]
-    if len(dm) != 1:
-        raise AnchorMissing("build_loop: expected one `match error.downcast::<SolveError>()`")
-    m = dm[0]
-    err_arm = [a for a in m["arms"] if a["pat"].get("name") == "Err"]
+    found, fatal = solve_error_match(F, b)
     rr.instances += 1
-    ok = bool(err_arm) and diverges(F, err_arm[0]["body"]) and any(x.get("k") == "Ret" and "e" in x and show(F, x["e"]).startswith("v1::Err(") for x in walk(err_arm[0]["body"]))
-    rr.check(ok, "build_loop:fatal-errors-returned", "errors that are not a SolveError (I/O errors of the lenders, store errors, BuildError) must be returned to the caller unchanged", F.loc(m))
-    ok_arm = [a for a in m["arms"] if a["pat"].get("name") == "Ok"]
-    inner = [n for n in walk(ok_arm[0]["body"]) if n.get("k") == "Match"] if ok_arm else []
-    if not inner:
+    rr.check(fatal, "build_loop:fatal-errors-returned", "errors that are not a SolveError (I/O errors of the lenders, store errors, BuildError) must be returned to the caller unchanged", b.span)
+    if found is None:
         raise AnchorMissing("build_loop: no match on the SolveError variants")
-    sm = inner[0]
-    variants = {}
-    for a in sm["arms"]:
-        variants[a["pat"].get("name", "?")] = a
+    variants, sm = found
     for v in ("DuplicateSignature", "DuplicateLocalSignature"):
         rr.instances += 1
         a = variants.get(v)
         if a is None:
             rr.violate("build_loop:%s:arm" % v, "build_loop has no arm for SolveError::%s" % v, F.loc(sm))
             continue
-        # a counter: `if cnt >= k { return Err(..) }` and `cnt += 1`, same counter
-        cnts = {}
-        for x in walk(a["body"]):
-            if x.get("k") == "If" and x["c"].get("k") == "Binary" and x["c"]["op"] in (">=", ">") and x["c"]["l"].get("k") == "Path" and x["c"]["r"].get("k") == "Lit":
-                if diverges(F, x["th"]) and any(y.get("k") == "Ret" and "Err(" in show(F, y.get("e", {"k": "?"})) for y in walk(x["th"])):
-                    cnts.setdefault(x["c"]["l"]["id"], {})["test"] = int(x["c"]["r"]["v"])
-            if x.get("k") == "AssignOp" and x["op"] == "+=" and x["l"].get("k") == "Path" and x["r"].get("v") == "1":
-                cnts.setdefault(x["l"]["id"], {})["inc"] = True
+        cnts = bounded_retry(F, a["body"])
         ok = any("test" in c and "inc" in c and c["test"] <= 16 for c in cnts.values())
         rr.check(ok, "build_loop:%s:bounded" % v, "the %s arm must count its retries and give up with a BuildError after a bounded number of attempts (found %s)" % (v, cnts), F.loc(a["body"]))
     # no SolveError arm returns Ok
@@ -320,8 +352,10 @@ def r17_2(ctx, rr):
     oks = [x for x in walk(b.body) if x.get("k") == "Ret" and "e" in x and show(F, x["e"]).startswith("v1::Ok(")]
     # the value returned is the binding of the `Ok(x)` arm of the match on try_seed's result
     ok_bind = set()
+    # locals holding the result of an attempt (`let attempt = if .. { self.try_seed(..) } else { self.try_seed(..) }`)
+    attempt_ids = set(x["pat"]["id"] for x in walk(b.body) if x.get("k") == "LetStmt" and x["pat"].get("k") == "PBind" and "init" in x and any(y.get("k") == "MethodCall" and y["name"] == "try_seed" for y in walk(x["init"])))
     for mm in walk(b.body):
-        if mm.get("k") == "Match" and any(x.get("k") == "MethodCall" and x["name"] == "try_seed" for x in walk(mm["e"])):
+        if mm.get("k") == "Match" and (any(x.get("k") == "MethodCall" and x["name"] == "try_seed" for x in walk(mm["e"])) or (mm["e"].get("k") == "Path" and mm["e"].get("id") in attempt_ids)):
             for a in mm["arms"]:
                 if a["pat"].get("name") == "Ok":
                     ok_bind |= set(bid for _, bid in pat_bindings(a["pat"]))
@@ -838,14 +872,10 @@ def r17_5(ctx, rr):
             in_solve_arg = any(any(x is s for x in walk(p)) for p in ps[-3:] for s in solve_calls if p.get("k") in ("MethodCall", "Call"))
             if not in_solve_arg:
                 early.add(F.defpath(n).split("::")[-1])
-    dm = [n for n in walk(bl.body) if n.get("k") == "Match" and n["e"].get("k") == "MethodCall" and n["e"]["name"] == "downcast"]
-    if len(dm) != 1:
-        raise AnchorMissing("build_loop: expected one `match error.downcast::<SolveError>()`")
-    ok_arm = [a for a in dm[0]["arms"] if a["pat"].get("name") == "Ok"]
-    inner = [n for n in walk(ok_arm[0]["body"]) if n.get("k") == "Match"] if ok_arm else []
-    if not inner:
+    found, _fatal = solve_error_match(F, bl)
+    if found is None:
         raise AnchorMissing("build_loop: no match on the SolveError variants")
-    variants = {a["pat"].get("name", "?"): a for a in inner[0]["arms"]}
+    variants = found[0]
     rr.instances += 1
     rr.ob(True, key="try_seed:early-errors", sample={"errors returned by try_seed before any shard is analysed": sorted(early)})
     for v in sorted(early):
@@ -853,9 +883,7 @@ def r17_5(ctx, rr):
         rr.instances += 1
         bounded = False
         if a is not None:
-            for x in walk(a["body"]):
-                if x.get("k") == "If" and x["c"].get("k") == "Binary" and x["c"]["op"] in (">=", ">") and diverges(F, x["th"]) and any(y.get("k") == "Ret" for y in walk(x["th"])):
-                    bounded = True
+            bounded = any("test" in c for c in bounded_retry(F, a["body"]).values())
         key = "build_loop:%s:unbounded-retry-before-duplicate-detection" % v
         rr.ob(bounded, key=key)
         if not bounded:
@@ -979,6 +1007,14 @@ def r17_6(ctx, rr):
                 n_results += 1
                 callee = (dropped.get("name") or (F.callee(dropped) or "").split("::")[-1])
                 fn_short = b.name
+                if callee == "try_for_each" and fn_short == "par_solve":
+                    # feeding the shards to the workers: `try_for_each(|x| tx.send(x))` stops at the first failed send,
+                    # i.e. when the workers are gone (the loop form breaks there); the error is the closed channel
+                    clos = [a_ for a_ in dropped.get("args", []) if a_.get("k") == "Closure"]
+                    if len(clos) == 1 and any(x.get("k") == "MethodCall" and x["name"] == "send" and "crossbeam_channel" in (F.callee(x) or "") for x in walk(clos[0]["body"])):
+                        rr.instances += 1
+                        rr.ob(True, key="par_solve:feeder:discarded-by-design", nontrivial=False)
+                        continue
                 if (fn_short, callee) in RESULT_SINKS_OK:
                     rr.instances += 1
                     rr.ob(True, key="%s:%s:discarded-by-design" % (fn_short, callee), nontrivial=False)
